@@ -150,7 +150,7 @@ SHAPES = {
     'C16': ['sendErrorResponse'],
     'C20': ['ServeHTTP'],
 }
-for _k in ('C12', 'C13'):
+for _k in ('C12', 'C13', 'C14'):
     PROPS[_k]['facts'] = list(PROPS[_k]['facts']) + ['text_Cache_' + _m for _m in ('Set', 'Get', 'Delete', 'Cleanup', 'evictOldest', 'removeItem')]
     PROPS[_k]['explanation'] += '; text obligations: the six cache.go methods read statement for statement as when Oidc.CacheImpl was written'
 SESSION_TEXT = {'C07': ['compressToken', 'decompressToken', 'SessionManager_GetSession', 'SessionManager_getTokenChunkSessions', 'SessionData_Save', 'SessionData_deleteStaleChunkCookies', 'SessionData_Clear', 'SessionData_clearTokenChunks', 'SessionData_GetAccessToken', 'SessionData_SetAccessToken', 'SessionData_GetRefreshToken', 'SessionData_SetRefreshToken', 'SessionData_expireAccessTokenChunks', 'SessionData_expireRefreshTokenChunks', 'splitIntoChunks', 'SessionData_GetAuthenticated', 'SessionData_SetAuthenticated'], 'C09': ['deriveBlockKey', 'NewSessionManager', 'SessionManager_GetSession', 'SessionManager_getTokenChunkSessions'], 'C11': ['SessionData_Clear', 'SessionData_clearTokenChunks', 'SessionData_Save', 'SessionData_deleteStaleChunkCookies'], 'C17': ['SessionManager_GetSession', 'SessionManager_getTokenChunkSessions', 'SessionData_Clear', 'SessionData_GetAccessToken', 'SessionData_GetRefreshToken'], 'C18': ['SessionManager_getSessionOptions', 'SessionData_Save', 'SessionData_deleteStaleChunkCookies', 'SessionData_SetAccessToken', 'SessionData_SetRefreshToken', 'SessionData_expireAccessTokenChunks', 'SessionData_expireRefreshTokenChunks', 'splitIntoChunks', 'SessionData_Clear'], 'C04': ['SessionManager_GetSession', 'SessionManager_getTokenChunkSessions', 'SessionData_GetAccessToken', 'SessionData_GetAuthenticated']}
